@@ -120,10 +120,11 @@ PROPS["C16"] = dict(
     trusted=COMMON_TRUST,
 )
 PROPS["C17"] = dict(
-    units=[("kani", "headers"), ("kani", "pcapcodec")],
+    units=[("kani", "headers"), ("kani", "pcapcodec")] + [("verus", "hdrser.%s" % k) for k in ("tcp", "udp", "eth", "vlan", "ipv4", "ipv6")],
     explanation="For every writable integer/bool field of every layer, every header content and every assigned i64: the stored value is the value reduced to the field width "
                 "(the value itself when in range) or the setter fails leaving everything unchanged; every other getter is unchanged; the serialised bytes differ only "
-                "inside the field's bit range; re-parsing reads the same value.",
+                "inside the field's bit range; re-parsing reads the same value. The harnesses carry a short payload; that the payload part of the serialisation is "
+                "rawdata[offset..] whatever the header holds, for every length, is the hdrser (Verus) serialiser contract.",
     not_covered=["address setters (string parsing, C18)", "sequences of assignments (follow from the frame condition of each setter)", "exec_prop_* wiring"],
     assumptions=[],
     trusted=COMMON_TRUST,
@@ -155,10 +156,22 @@ PROPS["C19"] = dict(
 )
 
 PROPS["C21"] = dict(
-    units=[("verus", "fileio")],
-    explanation="read_from_file verified against std::io::Read's contract over a ghost byte stream, for every chunking schedule: the result is exactly the next min(n, remaining) bytes, the stream advanced by as much, or an error object.",
-    not_covered=["read_line / read_to_string (thin wrappers over std)", "open-mode table (OpenOptions chains)", "BufWriter flushing at exit"],
+    units=[("verus", "fileio"), ("verus", "iobuiltins")],
+    explanation="read_from_file verified against std::io::Read's contract over a ghost byte stream, for every chunking schedule: the result is exactly the next min(n, remaining) bytes, the stream advanced by as much, or an error object. builtin_open: at each of its four OS open calls the option set equals the documented table for the mode being handled "
+                "(r: read; w: write+create+truncate; a: append+create; x: write+create_new) - the precondition of the os_open shim.",
+    not_covered=["read_line / read_to_string (thin wrappers over std)", "BufWriter flushing at exit", "that the OS honours the options"],
     assumptions=["std::io::Read::read: Ok(0) only at end of input or for an empty buffer; Ok(k) delivers the next k <= buf.len() bytes"],
+    trusted=COMMON_TRUST,
+)
+
+PROPS["C22"] = dict(
+    units=[("verus", "iobuiltins"), ("verus", "fileio")],
+    explanation="With every OS call replaced by a shim that may fail arbitrarily: flush on a writer/stdout/stderr always returns Ok(object) (no expect/unwrap reachable, "
+                "no runtime error); open with well-formed arguments always returns Ok(object); pcap_stream with a wrong arity is a runtime error (not an index panic) and with "
+                "stdin/stdout always Ok(object); pcap_open returns the error object of a failed open unchanged; read_from_file turns a failing read into an error object.",
+    not_covered=["read_line, read_to_string, write, pcap_read_next, pcap_read_all, pcap_write (same pattern, not under contract)",
+                 "that the object returned on an OS failure is the Err variant carrying that failure (the shim's result is not visible in the postcondition; only Ok-ness and panic-freedom are)"],
+    assumptions=["the OS shims' results are arbitrary Result values (no assumption on the OS)"],
     trusted=COMMON_TRUST,
 )
 
